@@ -5,6 +5,7 @@
 mod av;
 mod conc;
 mod sources;
+mod stream;
 mod total;
 mod wire;
 mod wirecases;
@@ -88,6 +89,7 @@ fn main() {
     match args.cmd.as_str() {
         "wire" => wirecases::run(&args),
         "total" => total::run(&args),
+        "stream" => stream::run(&args),
         "bomb-child" => total::bomb_child(&args),
         other => {
             eprintln!("vh: unknown command {other}");
